@@ -50,31 +50,49 @@ class C18(Check):
     extracted = ['coq/Codec/model.mli', 'coq/Codec/model.ml', 'ocaml/zconv.ml', 'ocaml/codec_driver.ml']
     harness_sources = ['harness/codec.cpp']
     technique = 'machine-checked proof (Coq 8.16) about an executable model + differential correspondence under ASan/UBSan'
-    level_text = ('Theorems in Coq about an executable model of the codecs: Unicode::toString equals the RFC 3629 bit layout and '
-                  'fromString/isValid invert/accept it for every code point below 0x110000 (structural proof by range, no sweep); '
-                  'length/fromString/isValid return without an out-of-range read for every byte list, and isValid equals layout '
-                  'validity; fromHex equals upper-case hex text; fromBase64 (as repaired) inverts the RFC 4648 encoder for every '
-                  'byte string and never leaves its input, its table or its output buffer for any input; the decimal '
-                  'printers/parsers round-trip over the full range of int, uint, int64, uint64. Tables (base64 decode table, hex '
-                  'digits, UTF-8 offsets) are regenerated from the source on every run. The model is tied to the code by running the '
-                  'extracted model, the extracted reference (RFC layouts, canonical decimal text) and the ASan/UBSan build of the '
-                  'working tree on the same inputs with exactly sized heap buffers.')
+    level_text = ('19 theorems in Coq (Properties_C18.v, all closed under the global context) about an executable model of the codecs. '
+                  'UTF-8: for every code point 0 <= cp < 0x110000 (all 1,114,112, by range with lia/bit lemmas, no sweep) toString cp is '
+                  'the RFC 3629 layout, fromString(toString cp) = cp and isValid accepts it (utf8_roundtrip, utf8_text_roundtrip for '
+                  'sequences); surrogates D800..DFFF are laid out as ordinary 3-byte sequences - the code excludes nothing '
+                  '(utf8_surrogates_not_excluded); values >= 0x110000 append nothing (utf8_encoder_total); fromString returns the code '
+                  'point of whatever well-formed first sequence the range starts with (utf8_decoder_reads_first_sequence). Bounds: '
+                  'fromString never fails a checked read for any list, isValid for any byte list and equals layout validity, a lead '
+                  'byte announcing more than the range holds gives 0 without a further read, length() is the lead-byte table '
+                  '(utf8_readers_in_bounds, utf8_from_string_never_fails, utf8_is_valid_never_fails, utf8_from_string_truncated, '
+                  'utf8_is_valid_accepts_text). Integers: print = the canonical decimal text of the cast argument, parse of the '
+                  'canonical text of any in-range value = that value, parse(print v) = v over the full range of int, uint, int64, '
+                  'uint64 and = the C cast of v outside (integer_prints_canonical, integer_parses_canonical, '
+                  'integer_roundtrips_in_range, integer_roundtrips_cast). fromHex = upper-case hex text for every byte string '
+                  '(hex_is_upper_hex). fromBase64 (as repaired) returns bs on rfc4648_encode bs for EVERY byte string bs (induction over '
+                  '3-byte groups + three tails; base64_inverts_rfc4648, base64_table_inverts_alphabet) and for every input list stays '
+                  'inside its input, its 123-entry table and its output buffer and never reads an unwritten cell (base64_in_bounds); '
+                  'the code as found leaves the table on byte 0x80 (base64_as_found_refuted). Tables (base64 decode table, hex digits, '
+                  'UTF-8 offsets) are regenerated from the source on every run. The model is tied to the code by running the extracted '
+                  'model, the extracted reference (RFC layouts, canonical decimal text) and the ASan/UBSan build of the working tree on '
+                  'the same inputs with exactly sized heap buffers.')
     level_note = ('PARTIAL: libc formatting and parsing (vsnprintf %d %u %lld %llu; atoi, strtoul, atoll, strtoull of glibc on LP64) are '
                   'MODELLED as reference decimal functions (digit loop; white space, sign, longest digit prefix, clamp to 64 bit, cast) - '
-                  'the round-trip theorems are about that model and the tie for it is boundary/random differential testing only. '
-                  'String memory management (detach/reserve/resize) is not modelled here (C06) except the output buffer of fromBase64. '
-                  'The theorems are about the model; the tie to the code is differential (exhaustive over code points in the thorough '
-                  'tier, over all byte strings up to length 2 / a 35-symbol class alphabet at length 3 for the UTF-8 readers, over all '
-                  'strings up to length 4 of a 12-symbol alphabet for base64). Trusted: Coq kernel, CodecSpec.v (RFC 3629 / RFC 4648 / '
-                  'decimal transcription, guarded by known-answer Examples), extraction + OCaml driver, harness, table translator.')
-    rule = ('one case = a batch of independent codec calls (u8rt/u8enc/u8dec/u8valid/u8len, hex, b64, from*/to*/rt* for the four integer '
-            'types); streams: code points (all of them in thorough; every range edge +-2, a stride and random ones in quick), all byte '
-            'strings up to length 2 (+ length 3 over the class alphabet) for the readers, mostly-valid UTF-8 text with one mutation, '
-            'base64 strings up to length 4 over {A Q f z / + 9 = { 00 80 ff}, RFC 4648 encodings of random byte strings and mutations '
-            'of them, integer boundaries (min/max, 0, +-1, 10^k+-1, 2^k+-1) and random values, malformed decimal text. A case is '
-            'non-trivial when at least one call takes a multi-byte / multi-digit / multi-group path (code point >= 0x80, reader input '
-            'with a byte >= 0x80, base64 input of a non-zero multiple of 4 characters, |integer| >= 10, non-empty hex input); '
-            'distinct = distinct op text')
+                  'the integer theorems are about that model (trusted) and the tie for it is boundary/random differential testing only. '
+                  'String memory management (detach/reserve/resize/append) is not modelled here (C06) except the output buffer of '
+                  'fromBase64 (capacity = inlen|3 plus terminator, cells unwritten until written). Behaviour validated by '
+                  'correspondence only (modelled, no theorem): parsers on non-canonical text (white space, +, leading zeros, '
+                  'trailing garbage, overflow clamping), fromBase64 results on strings that are not RFC 4648 encodings (only '
+                  'bounds-safety is proved for them). isValid is proved equal to layout validity (lead byte + announced number of '
+                  'continuation bytes): it accepts overlong forms, surrogates and values above U+10FFFF, which the property text '
+                  'leaves open. The theorems are about the model; the tie to the code is differential: all 1,114,112 code points '
+                  'and all byte strings of length <= 3 for the readers in the thorough tier (length <= 2 + class-alphabet sweeps in '
+                  'quick), 4-character base64 strings with one position over all 256 byte values. Trusted: Coq kernel, CodecSpec.v '
+                  '(RFC 3629 / RFC 4648 / decimal transcription, guarded by known-answer Examples), extraction + OCaml driver, harness, '
+                  'table translator.')
+    rule = ('one case = a batch of independent codec calls (u8rt/u8enc/u8dec/u8valid/u8len/u8sw, hex, b64/b64sw, from*/to*/rt* for the four '
+            'integer types; u8sw/b64sw = 256 calls, one byte position running over all values); streams: code points (all of them in '
+            'thorough; every range edge +-2, 0..0x8ff, a stride and random ones in quick), all byte strings up to length 2 (length 3 in '
+            'thorough; class-alphabet sweeps of lengths 2-4 in quick) for the readers, mostly-valid UTF-8 text with one mutation, '
+            'base64 strings up to length 4 over {A Q f z / + 9 = { 00 80 ff}, 4-character base64 strings with one position over all 256 '
+            'values, RFC 4648 encodings of random byte strings and mutations of them, integer boundaries (min/max, 0, +-1, 10^k+-1, '
+            '2^k+-1) and random values, malformed decimal text. A case is non-trivial when at least one call takes a multi-byte / '
+            'multi-digit / multi-group path (code point >= 0x80, reader input with a byte >= 0x80, any sweep, base64 input of a non-zero '
+            'multiple of 4 characters, |integer| >= 10, non-empty hex input); distinct = distinct op text')
     assumptions = ['glibc on LP64 for the integer conversions: printf %d/%u/%lld/%llu print canonical decimal text; strtol/strtoul/strtoll/'
                    'strtoull skip white space, take an optional sign and the longest digit prefix, clamp to 64 bit (modelled, not proved of libc)',
                    'char is signed 8 bit, uint32 arithmetic wraps modulo 2^32 (x86-64 ABI)',
@@ -115,6 +133,26 @@ class C18(Check):
                 if a != '-' and len(a) >= 4:
                     return True
         return False
+
+    # ---- oracle: the default comparison with the reference; the reason starts with the op kind (padded) so
+    # that one defect gives one report per kind of call instead of one per output shape -------------
+    def judge(self, cases, impl_obs, spec_obs):
+        fails = []
+        for (i, k, reason) in Check.judge(self, cases, impl_obs, spec_obs):
+            op = cases[i][k].split(' ')[0] if k < len(cases[i]) else 'crash'
+            where = ''
+            if op in ('u8sw', 'b64sw') and k < len(impl_obs[i]) and k < len(spec_obs[i]):
+                st, it = spec_obs[i][k].split(' '), impl_obs[i][k].split(' ')
+                t = cases[i][k].split(' ')
+                for n, (a, b) in enumerate(zip(st, it)):
+                    if a != b and a != '?':
+                        pre = '' if t[1] == '-' else t[1]
+                        suf = '' if t[2] == '-' else t[2]
+                        what = ('fromString' if n < 256 else 'isValid') if op == 'u8sw' else 'fromBase64'
+                        where = ' [%s on bytes %s%02x%s: reference %s, implementation %s]' % (what, pre, n % 256, suf, a, b)
+                        break
+            fails.append((i, k, ('%-90s' % ('call %s: the implementation differs from the reference;' % op)) + where + ' ' + reason[:600]))
+        return fails
 
     # ---- generators ----------------------------------------------------------------------
     def utf8_text(self, rng, n):
@@ -365,7 +403,11 @@ class C18(Check):
             got = [l.split(' ')[0] for l in o]
             bad = len(got) < 5 or tuple(got[:4]) != w[:4] or (w[4] and got[4] != '1')   # strict python accepts => isValid must accept
             if bad:
-                p = self.write_replay('failing-input', 'python base64/codecs/int oracle', c, {'expected': w, 'got': got})
+                # keep only the calls that differ
+                keep = [j for j in range(5) if j >= len(got) or (got[j] != w[j] if j < 4 else (w[4] and got[4] != '1'))]
+                c = [c[j] for j in keep]
+                p = self.write_replay('failing-input', 'python base64/codecs/int oracle', c,
+                                      {'reason': 'python oracle: expected %s, implementation gives %s' % ([w[j] for j in keep], [got[j] if j < len(got) else '<nothing>' for j in keep])})
                 ctx['violations'].append((p, ''))
                 break
 
